@@ -649,6 +649,13 @@ def mean_polynomial(ctx, fq, sample="self"):
             return Poly.atom(("P", x.attr))
         if isinstance(x, ast.Call) and call_name(x) == "np.sum" and len(x.args) == 2 and U(x.args[1]) == "-1":
             return N.n(x.args[0])      # flatten the embedding-axis sum: compare summands
+        # the same sum in its other spellings: np.sum(E, axis=-1), E.sum(-1), E.sum(axis=-1)
+        ax = [k.value for k in getattr(x, "keywords", []) if k.arg == "axis"]
+        if isinstance(x, ast.Call) and call_name(x) == "np.sum" and len(x.args) == 1 and len(x.keywords) == 1 and ax and U(ax[0]) == "-1":
+            return N.n(x.args[0])
+        if isinstance(x, ast.Call) and isinstance(x.func, ast.Attribute) and x.func.attr == "sum" and not (isinstance(x.func.value, ast.Name) and x.func.value.id in ("np", "numpy")) \
+                and ((len(x.args) == 1 and not x.keywords and U(x.args[0]) == "-1") or (not x.args and len(x.keywords) == 1 and ax and U(ax[0]) == "-1")):
+            return N.n(x.func.value)
         return None
     return Norm(atomizer=at, strict=True).n(e), f
 
